@@ -54,4 +54,48 @@ theorem table_covers :
     BtcVerif.Gen.coverLocs.all (fun i => i != 0 && (locs BtcVerif.Gen.accessTable).contains i) = true := by
   decide +kernel
 
+/-- **from the table to executions**: for every execution that the rows describe (every access has a
+    row of the same kind and initialisation flag; a row marked guarded stands for an access made while
+    the location's mutex is held), a location on which the table's discipline (a) "written only during
+    initialisation" or (b) "every later access under the mutex" evaluates to true has no data race —
+    for any number of goroutines and any interleaving. Discipline (c), lazy initialisation forced
+    during package initialisation, is `forced_init_no_race`. -/
+theorem table_discipline_sound (t : Trace) (rows : List AccessRow) (mutexOf : Nat → Nat) (x : Nat)
+    (hf : InitFirst t) (hm : MutexOk t) (hc : Conforms t rows mutexOf) (hok : locOkAB rows x = true) :
+    ¬ RaceOn t x :=
+  BtcVerif.Model.HB.table_discipline_sound t rows mutexOf x hf hm hc hok
+
+/-- the disciplines (a)/(b) hold on the regenerated table for every location that has no lazy write
+    after initialisation (those are covered by discipline (c)) -/
+theorem lib_ab_or_lazy :
+    ((locs BtcVerif.Gen.accessTable).filter (fun l => !BtcVerif.Gen.excludedLocs.contains l)).all
+      (fun l => locOkAB BtcVerif.Gen.accessTable l ||
+        (BtcVerif.Gen.accessTable.any fun r => r.loc == l && r.isWrite && r.lazy && r.inInit)) = true := by
+  decide +kernel
+
+/-! non-vacuity of the hypotheses: a trace with initialisation, two goroutines taking the mutex in turn,
+    and its rows -/
+def sampleTrace : Trace :=
+  [⟨0, .write, 5⟩, ⟨1, .lock, 9⟩, ⟨1, .read, 5⟩, ⟨1, .write, 5⟩, ⟨1, .unlock, 9⟩, ⟨2, .lock, 9⟩, ⟨2, .write, 5⟩, ⟨2, .unlock, 9⟩]
+def sampleRows : List AccessRow :=
+  [⟨5, true, false, true, false⟩, ⟨5, false, false, false, true⟩, ⟨5, true, false, false, true⟩]
+
+example : locOkAB sampleRows 5 = true := by decide
+example : Conforms sampleTrace sampleRows (fun _ => 9) := by
+  intro i e hi hk
+  have hlt : i < 8 := by
+    have := (List.getElem?_eq_some_iff.mp hi).1
+    simpa [sampleTrace] using this
+  rcases i with _ | _ | _ | _ | _ | _ | _ | _ | i
+  case succ.succ.succ.succ.succ.succ.succ.succ => omega
+  all_goals
+    simp [sampleTrace] at hi
+    subst hi
+    simp at hk
+  all_goals
+    first
+    | exact ⟨⟨5, true, false, true, false⟩, by decide, rfl, rfl, rfl, by decide⟩
+    | exact ⟨⟨5, false, false, false, true⟩, by decide, rfl, rfl, rfl, fun _ => by decide⟩
+    | exact ⟨⟨5, true, false, false, true⟩, by decide, rfl, rfl, rfl, fun _ => by decide⟩
+
 end BtcVerif.Props.C19
